@@ -122,7 +122,7 @@ func fill(c *vh.Ctx, m protoreflect.Message, depth int, o Opts, exts []protorefl
 		case fd.IsMap():
 			mp := m.Mutable(fd).Map()
 			for k := r.Intn(3); k >= 0; k-- {
-				key := scalar(c, fd.MapKey(), Opts{}).MapKey()
+				key := scalar(c, fd.MapKey(), Opts{BadUTF8: o.BadUTF8}).MapKey()
 				if fd.MapValue().Message() != nil {
 					if depth >= o.MaxDepth {
 						continue
